@@ -457,9 +457,10 @@ theorem dup_accept_stop {σ : State} {r : Rec} (b : Bool) (hn : r.sid ∉ σ.ack
 
 
 theorem loadPending_acks (σ : State) (recd : List Nat) (l : List PRec) :
-    (loadPending σ recd l).ackedStops = σ.ackedStops ∧ (loadPending σ recd l).dup = σ.dup := by
+    (loadPending σ recd l).ackedStops = σ.ackedStops ∧ (loadPending σ recd l).dup = σ.dup ∧
+    (loadPending σ recd l).logAck = σ.logAck := by
   induction l generalizing σ with
-  | nil => exact ⟨rfl, rfl⟩
+  | nil => exact ⟨rfl, rfl, rfl⟩
   | cons q qs ih =>
     simp only [loadPending]
     split
@@ -1265,7 +1266,7 @@ theorem nd_tickRecLoad {σ : State} (h : ND σ) {recd order : List Nat}
     · intro s _ hd
       rw [show (setPc (loadPending σ recd (recOfIds ps (normalize order (ps.map (·.id)))))
         (some .recPendRemove)).dup = (loadPending σ recd (recOfIds ps (normalize order (ps.map (·.id))))).dup from rfl,
-        (loadPending_acks σ recd _).2] at hd
+        (loadPending_acks σ recd _).2.1] at hd
       exact hd
     · intro s _ hs
       left
@@ -1392,7 +1393,12 @@ theorem nd_procFail {σ τ : State} (h : ND σ) (hnr : ¬ isRec σ.vol.pc) (p : 
   obtain ⟨t1, t2, t3, t4, t5, t6⟩ := hτ
   unfold procFail
   split
-  · apply nd_genP h hnr t1 t2 t3 t4 hτd
+  · apply nd_genP h hnr
+    · exact t1
+    · exact t2
+    · exact t3
+    · exact t4
+    · exact hτd
     · intro s hs; unfold FS at hs ⊢; simp only [setPpc] at hs; rw [t5] at hs; exact hs
     · intro q hq
       simp only [setPpc] at hq
@@ -1400,7 +1406,12 @@ theorem nd_procFail {σ τ : State} (h : ND σ) (hnr : ¬ isRec σ.vol.pc) (p : 
       exact ⟨q, mem_eraseP hq, rfl, rfl⟩
     · show τ.dur.pfile = _; rw [t5]
     · intro s _ _ hc; exact absurd hc (hppc s)
-  · apply nd_genP h hnr t1 t2 t3 t4 hτd
+  · apply nd_genP h hnr
+    · exact t1
+    · exact t2
+    · exact t3
+    · exact t4
+    · exact hτd
     · intro s hs; unfold FS at hs ⊢; simp only [setPpc] at hs; rw [t5] at hs; exact hs
     · intro q hq
       simp only [setPpc, List.mem_map] at hq
@@ -1422,9 +1433,16 @@ theorem nd_ptick {σ : State} (h : ND σ) (a : Ans) : ND (ptick σ a) := by
     have noClP : ∀ s, ¬ cleans σ.vol.ppc s := by intro s; rw [hpp]; simp [cleans]
     unfold tickProcSend
     split
-    · apply nd_genP (σ' := setPpc σ _) h hnr rfl rfl rfl rfl (fun _ _ hd => hd) (fun s hs => hs)
-        (fun p hp => ⟨p, hp, rfl, rfl⟩) rfl
-      intro s _ _ hc; exact absurd hc (noClP s)
+    · apply nd_genP h hnr
+      · rfl
+      · rfl
+      · rfl
+      · rfl
+      · exact fun _ _ hd => hd
+      · exact fun s hs => hs
+      · exact fun p hp => ⟨p, hp, rfl, rfl⟩
+      · rfl
+      · intro s _ _ hc; exact absurd hc (noClP s)
     · rename_i p hp
       have hm := findP_mem hp
       have hid := findP_id hp
@@ -1496,8 +1514,12 @@ theorem nd_ptick {σ : State} (h : ND σ) (a : Ans) : ND (ptick σ a) := by
       have := h.rp hr
       rw [hpp] at this; simp at this
     unfold tickProcRemove
-    apply nd_genP (σ' := setPpc (removeFile σ k) (nextProc σ.vol.pending rest)) h hnr rfl rfl rfl rfl
-      (fun _ _ hd => hd)
+    apply nd_genP h hnr
+    · rfl
+    · rfl
+    · rfl
+    · rfl
+    · exact fun _ _ hd => hd
     · intro s hs
       unfold FS at hs ⊢
       simp only [setPpc, removeFile, lookup_erase] at hs
@@ -1512,5 +1534,907 @@ theorem nd_ptick {σ : State} (h : ND σ) (a : Ans) : ND (ptick σ a) := by
       subst hc
       right; unfold FS; simp [setPpc, removeFile]
   · exact h
+
+
+/-! ## acknowledged sessions are sessions the server has a Stop of -/
+
+def AK (σ : State) : Prop := ∀ s, (s ∈ σ.ackedStops ∨ s ∈ σ.dup) → stopIn σ.log s
+
+theorem ak_accept {σ : State} (h : AK σ) (r : Rec) (b : Bool) : AK (accept σ r b) := by
+  intro s hs
+  have key : (s ∈ σ.ackedStops ∨ s ∈ σ.dup) ∨ (r.kind = .stop ∧ r.sid = s) := by
+    rcases hs with h1 | h1
+    · simp only [accept] at h1
+      split at h1
+      · rename_i hc
+        simp only [Bool.and_eq_true, beq_iff_eq] at hc
+        rcases List.mem_cons.mp h1 with e | e
+        · exact Or.inr ⟨hc.2, e.symm⟩
+        · exact Or.inl (Or.inl e)
+      · exact Or.inl (Or.inl h1)
+    · rcases dup_accept_mem h1 with h2 | ⟨h2, h3⟩
+      · exact Or.inl (Or.inr h2)
+      · exact Or.inl (Or.inl (h2 ▸ h3))
+  rcases key with h1 | h1
+  · exact stopIn_append _ (h s h1)
+  · exact ⟨r, by simp [accept], h1⟩
+
+theorem ak_same {σ σ' : State} (h : AK σ) (h1 : σ'.ackedStops = σ.ackedStops) (h2 : σ'.dup = σ.dup)
+    (h3 : ∀ r ∈ σ.log, r ∈ σ'.log) : AK σ' := by
+  intro s hs
+  rw [h1, h2] at hs
+  obtain ⟨r, hr, hk⟩ := h s hs
+  exact ⟨r, h3 r hr, hk⟩
+
+/-- the four fields only `accept` writes: the server's log, the acknowledgement flags and the two ghosts derived
+    from them -/
+def Four (σ : State) : List Rec × List Bool × List Nat × List Nat := (σ.log, σ.logAck, σ.ackedStops, σ.dup)
+
+section FourFields
+/-! an invariant over those four fields that `accept` preserves holds after every step -/
+variable (P : State → Prop) (hsame : ∀ σ σ' : State, Four σ' = Four σ → P σ → P σ')
+  (hacc : ∀ (σ : State) (r : Rec) (b : Bool), P σ → P (accept σ r b))
+include hsame hacc
+
+theorem four_send {σ : State} (h : P σ) (r : Rec) (a : Ans) (v : Bool) : P (send σ r a v) := by
+  unfold send; split
+  · exact hacc _ r true h
+  · exact hsame σ _ (by rfl) h
+  · exact hsame (accept σ r false) _ (by rfl) (hacc _ r false h)
+
+theorem four_tick {σ : State} (h : P σ) (a : Ans) : P (tick σ a) := by
+  unfold tick
+  split
+  · exact h
+  · unfold tickStartSend; split
+    · exact hsame σ _ (by rfl) h
+    · exact hsame (send σ _ a false) _ (by rfl) (four_send P hsame hacc h _ a false)
+  · unfold tickStartPersist persistSession
+    split
+    · exact hsame σ _ (by rfl) h
+    · split <;> exact hsame σ _ (by rfl) h
+  · unfold tickStopPersist persistSession; split <;> exact hsame σ _ (by rfl) h
+  · unfold tickStopSend; split
+    · exact hsame σ _ (by rfl) h
+    · exact hsame (send σ _ a false) _ (by rfl) (four_send P hsame hacc h _ a false)
+  · exact hsame σ _ (by rfl) h
+  · unfold tickStopRemove; split <;> exact hsame σ _ (by rfl) h
+  · unfold tickIntSend
+    split
+    · exact hsame σ _ (by rfl) h
+    · dsimp only
+      split
+      · exact hsame (accept σ _ true) _ (by rfl) (hacc _ _ true h)
+      · exact hsame σ _ (by rfl) h
+      · exact hsame (accept σ _ false) _ (by rfl) (hacc _ _ false h)
+  · exact h
+  · exact h
+  · rename_i k rest _
+    unfold tickDrainSend
+    split
+    · exact hsame σ _ (by rfl) h
+    · dsimp only
+      have h0 : P (noteOrd σ k) := hsame σ _ (by rfl) h
+      split
+      · exact hsame (accept (noteOrd σ k) _ true) _ (by rfl) (hacc _ _ true h0)
+      · exact hsame σ _ (by rfl) h
+      · exact hsame (accept (noteOrd σ k) _ false) _ (by rfl) (hacc _ _ false h0)
+  · exact hsame σ _ (by rfl) h
+  · unfold tickPersistPending; split
+    · exact h
+    · exact hsame σ _ (by rfl) h
+  · unfold tickRecSend; split
+    · exact hsame σ _ (by rfl) h
+    · exact hsame (send σ _ a true) _ (by rfl) (four_send P hsame hacc h _ a true)
+  · exact hsame σ _ (by rfl) h
+  · rename_i recd order _
+    unfold tickRecLoad
+    split
+    · exact hsame σ _ (by rfl) h
+    · rename_i ps _
+      have sp := loadPending_spec σ recd (recOfIds ps (normalize order (ps.map (·.id))))
+      apply hsame σ _ _ h
+      unfold Four
+      simp only [setPc]
+      rw [sp.log, (loadPending_acks σ recd _).2.2, (loadPending_acks σ recd _).1, (loadPending_acks σ recd _).2.1]
+  · exact hsame σ _ (by rfl) h
+
+theorem four_procFail {σ : State} (h : P σ) (p : PRec) (id : Nat) (rest : List Nat) : P (procFail σ p id rest) := by
+  unfold procFail; split <;> exact hsame σ _ (by rfl) h
+
+theorem four_ptick {σ : State} (h : P σ) (a : Ans) : P (ptick σ a) := by
+  unfold ptick
+  split
+  · rename_i id rest _
+    unfold tickProcSend
+    split
+    · exact hsame σ _ (by rfl) h
+    · dsimp only
+      have h0 : P (notePOrd σ id) := hsame σ _ (by rfl) h
+      split
+      · split <;> exact hsame (accept (notePOrd σ id) _ true) _ (by rfl) (hacc _ _ true h0)
+      · exact four_procFail P hsame hacc h0 _ _ _
+      · exact four_procFail P hsame hacc (hacc _ _ false h0) _ _ _
+  · exact hsame σ _ (by rfl) h
+  · exact h
+
+theorem four_step {σ : State} (h : P σ) (op : Op) : P (step σ op) := by
+  by_cases ht : ∃ a, op = .tick a
+  · obtain ⟨a, e⟩ := ht; subst e; exact four_tick P hsame hacc h a
+  · by_cases hp : ∃ a, op = .ptick a
+    · obtain ⟨a, e⟩ := hp; subst e; exact four_ptick P hsame hacc h a
+    · apply hsame σ _ _ h
+      exact step_ghost_simple Four (fun _ _ => rfl) (fun _ _ => rfl) (fun _ _ => rfl) (fun _ _ => rfl)
+        (fun _ _ => rfl) (fun _ _ => rfl) (fun _ _ => rfl) (fun _ _ _ => rfl) (fun _ _ => rfl) (fun _ => rfl)
+        (fun _ _ => rfl) (fun _ _ _ => rfl) σ op (fun a e => ht ⟨a, e⟩) (fun a e => hp ⟨a, e⟩)
+
+end FourFields
+
+theorem ak_step {σ : State} (h : AK σ) (op : Op) : AK (step σ op) := by
+  apply four_step AK _ (fun σ r b h => ak_accept h r b) h op
+  intro σ σ' e h
+  unfold Four at e
+  simp only [Prod.mk.injEq] at e
+  exact ak_same h e.2.2.1 e.2.2.2 (fun r hr => by rw [e.1]; exact hr)
+
+/-! ## calls, crash, restart -/
+
+/-- a process that is down has no call in progress -/
+def IdleDown (σ : State) : Prop := σ.up = false → σ.vol.pc = none ∧ σ.vol.ppc = none
+
+theorem tick_up (σ : State) (a : Ans) : (tick σ a).up = σ.up ∨ (tick σ a).vol = {} := by
+  unfold tick
+  split
+  · exact Or.inl rfl
+  · left; unfold tickStartSend send; repeat' (first | rfl | split)
+  · left; unfold tickStartPersist persistSession; repeat' (first | rfl | split)
+  · left; unfold tickStopPersist persistSession; repeat' (first | rfl | split)
+  · left; unfold tickStopSend send; repeat' (first | rfl | split)
+  · exact Or.inl rfl
+  · left; unfold tickStopRemove; repeat' (first | rfl | split)
+  · left; unfold tickIntSend; repeat' (first | rfl | split)
+  · exact Or.inl rfl
+  · exact Or.inl rfl
+  · left; unfold tickDrainSend; repeat' (first | rfl | split)
+  · exact Or.inl rfl
+  · unfold tickPersistPending
+    split
+    · exact Or.inl rfl
+    · exact Or.inr rfl
+  · left; unfold tickRecSend send; repeat' (first | rfl | split)
+  · exact Or.inl rfl
+  · left
+    unfold tickRecLoad
+    split
+    · rfl
+    · exact (loadPending_spec _ _ _).up
+  · exact Or.inl rfl
+
+theorem idleDown_step {σ : State} (h : IdleDown σ) (op : Op) : IdleDown (step σ op) := by
+  cases op with
+  | tick a =>
+    intro hup
+    rcases tick_up σ a with e | e
+    · have hpc := h (by rw [← e]; exact hup)
+      simp only [step]
+      rw [tick_idle a hpc.1]; exact hpc
+    · simp only [step]; rw [e]; exact ⟨rfl, rfl⟩
+  | ptick a =>
+    intro hup
+    have e : (ptick σ a).up = σ.up :=
+      ptick_ghost State.up (fun _ _ => rfl) (fun _ _ => rfl) (fun _ _ _ => rfl) (fun _ _ => rfl) (fun _ _ => rfl)
+        (fun _ _ _ => rfl) σ a
+    have hpc := h (by rw [← e]; exact hup)
+    simp only [step]
+    rw [ptick_idle a hpc.2]; exact hpc
+  | crash => intro _; exact ⟨rfl, rfl⟩
+  | crashTorn => intro _; exact ⟨rfl, rfl⟩
+  | ctr s i o => exact h
+  | restart order =>
+    simp only [step]
+    split
+    · exact h
+    · intro hup
+      unfold callRestart at hup
+      dsimp only at hup
+      split at hup <;> simp [setPc, begin] at hup
+  | start s ident =>
+    simp only [step]
+    split
+    · exact h
+    · rename_i hu
+      intro hup
+      split at hup
+      · simp_all
+      · unfold callStart at hup
+        split at hup <;> simp_all [setPc, begin]
+  | interim s =>
+    simp only [step]
+    split
+    · exact h
+    · rename_i hu
+      intro hup
+      split at hup
+      · simp_all
+      · unfold callInterim at hup
+        split at hup
+        · simp_all [begin]
+        · split at hup <;> simp_all [setPc, begin]
+  | stop s cause =>
+    simp only [step]
+    split
+    · exact h
+    · rename_i hu
+      intro hup
+      split at hup
+      · simp_all
+      · unfold callStop at hup
+        split at hup <;> simp_all [setPc, begin]
+  | deq =>
+    simp only [step]
+    split
+    · exact h
+    · rename_i hu
+      intro hup
+      split at hup
+      · simp_all
+      · unfold callDeq at hup
+        split at hup <;> simp_all [setPpc, pbegin]
+  | retry order =>
+    simp only [step]
+    split
+    · exact h
+    · rename_i hu
+      intro hup
+      split at hup
+      · simp_all
+      · simp_all [callRetry, setPpc, pbegin]
+  | shutdown order =>
+    simp only [step]
+    split
+    · exact h
+    · rename_i hu
+      intro hup
+      split at hup
+      · simp_all
+      · simp_all [callShutdown, setPc, begin]
+
+/-- a session id that was never registered is nowhere -/
+theorem nowhere_of_unregistered {σ : State} (hr : Reg σ) (hk : AK σ) {s : Nat} (hs : s ∉ σ.registered.map (·.1)) :
+    (¬ ackd σ s ∧ s ∉ σ.dup) ∧ ¬ AS σ s ∧ ¬ FS σ s ∧ ¬ PS σ s ∧ ¬ QS σ s := by
+  have key : ∀ i, (s, i) ∉ σ.registered := fun i hm => hs (List.mem_map.mpr ⟨(s, i), hm, rfl⟩)
+  have nolog : ¬ stopIn σ.log s := by
+    rintro ⟨r, hr', _, e⟩
+    have := hr.log r hr'
+    rw [e] at this; exact key _ this
+  refine ⟨⟨fun ha => nolog (hk s (Or.inl ha)), fun hd => nolog (hk s (Or.inr hd))⟩, ?_, ?_, ?_, ?_⟩
+  · intro ha
+    unfold AS at ha
+    cases hl : lookup σ.vol.sessions s with
+    | none => rw [hl] at ha; simp at ha
+    | some x => exact key _ (hr.sess s x hl)
+  · intro ha
+    unfold FS at ha
+    cases hl : lookup σ.dur.files s with
+    | none => rw [hl] at ha; simp at ha
+    | some x => exact key _ (hr.files s x hl)
+  · rintro ⟨p, hp, _, e⟩
+    have := hr.pend p hp
+    rw [e] at this; exact key _ this
+  · rintro ⟨ps, hps, p, hp, _, e⟩
+    have := hr.pfile ps hps p hp
+    rw [e] at this; exact key _ this
+
+theorem nds_of_nowhere {σ : State} {s : Nat}
+    (h : (¬ ackd σ s ∧ s ∉ σ.dup) ∧ ¬ AS σ s ∧ ¬ FS σ s ∧ ¬ PS σ s ∧ ¬ QS σ s) : NDs σ s := by
+  obtain ⟨⟨h1, h0⟩, h2, h3, h4, h5⟩ := h
+  refine ⟨h0, ?_, ?_, ?_, ?_, ?_, ?_, ?_, ?_, ?_⟩
+  · intro p hp _ _ hst _; exact absurd ⟨p, hp, hst⟩ h4
+  · intro ps hps p hp _ _ hst _; exact absurd ⟨ps, hps, p, hp, hst⟩ h5
+  · exact fun hl => absurd hl h1
+  · exact fun hl => absurd hl h1
+  · exact fun hl => absurd hl h1
+  · exact fun hl => absurd hl h1
+  · exact fun hp => absurd hp h4
+  · exact fun hp => absurd hp h4
+  · exact fun ha => absurd ha h2
+
+theorem nd_init (c : Cfg) : ND (init c) := by
+  refine ⟨?_, by simp [init, isRec], by simp [init, recInfo], by simp [init, pendingDrain], by simp [init]⟩
+  intro s _
+  apply nds_of_nowhere
+  refine ⟨⟨by simp [ackd, init], by simp [init]⟩, ?_, ?_, ?_, ?_⟩
+  · simp [AS, init]
+  · simp [FS, init]
+  · rintro ⟨p, hp, _⟩; simp [init] at hp
+  · rintro ⟨ps, hps, _⟩; simp [init] at hps
+
+/-- steps that change only bookkeeping fields -/
+theorem nd_same {σ σ' : State} (h : ND σ) (ht : σ'.tainted = σ.tainted) (hl : σ'.ackedStops = σ.ackedStops)
+    (hdup : σ'.dup = σ.dup) (hv : σ'.vol = σ.vol) (hd : σ'.dur = σ.dur) : ND σ' := by
+  apply nd_sub h (by rw [hv]) ht hl (fun s _ hs => by rw [hdup] at hs; exact hs)
+    (fun s hs => by unfold AS at hs ⊢; rw [hv] at hs; exact hs)
+    (fun s hs => by unfold FS at hs ⊢; rw [hd] at hs; exact hs)
+    (fun p hp => by rw [hv] at hp; exact Or.inl ⟨p, hp, rfl, rfl⟩)
+    (Or.inl (by rw [hd]))
+  · intro s _ _ hc; rw [hv]; exact Or.inl hc
+  · intro s hc; rw [hv]; exact Or.inl hc
+  · intro s hc; rw [hv]; exact Or.inl hc
+  · rw [hv]; exact h.r1
+  · intro recd cur hr
+    rw [hv] at hr
+    obtain ⟨a1, a2⟩ := h.r2 recd cur hr
+    refine ⟨fun x hx hf => a1 x hx (by unfold FS at hf ⊢; rw [hd] at hf; exact hf), ?_⟩
+    rw [hv]; exact a2
+  · rw [hv]; exact h.dr
+  · rw [hv]; exact id
+
+
+theorem pc_none_of_not_isSome {σ : State} (h : ¬ σ.vol.pc.isSome = true) : σ.vol.pc = none := by
+  cases e : σ.vol.pc with
+  | none => rfl
+  | some f => rw [e] at h; simp at h
+
+theorem nd_crash {σ : State} (hr : Reg σ) (hk : AK σ) : ND (crash σ) := by
+  refine ⟨?_, by simp [crash, isRec], by simp [crash, recInfo], by simp [crash, pendingDrain], by simp [crash]⟩
+  intro s hs
+  have hs' : s ∉ σ.registered.map (·.1) := by
+    intro hm; apply hs
+    simp only [crash, List.mem_append]
+    exact Or.inl hm
+  obtain ⟨h1, _, h3, _, h5⟩ := nowhere_of_unregistered hr hk hs'
+  apply nds_of_nowhere
+  refine ⟨h1, ?_, h3, ?_, h5⟩
+  · simp [AS, crash]
+  · rintro ⟨p, hp, _⟩; simp [crash] at hp
+
+theorem ak_torn {σ : State} (h : AK σ) : AK (tornEffect σ) := by
+  unfold tornEffect
+  split
+  · split
+    · exact ak_same h rfl rfl (fun _ hr => hr)
+    · exact h
+  · split
+    · exact ak_same h rfl rfl (fun _ hr => hr)
+    · exact h
+  · exact h
+
+theorem nd_step {σ : State} (h : ND σ) (hr : Reg σ) (hk : AK σ) (hi : IdleDown σ) (op : Op)
+    (hfresh : ((step σ op).registered.map (·.1)).Nodup) : ND (step σ op) := by
+  cases op with
+  | tick a => exact nd_tick h a
+  | ptick a => exact nd_ptick h a
+  | ctr s i o => exact nd_same h rfl rfl rfl rfl rfl
+  | crash => exact nd_crash hr hk
+  | crashTorn => exact nd_crash (reg_torn hr) (ak_torn hk)
+  | restart order =>
+    simp only [step]
+    split
+    · exact nd_same h rfl rfl rfl rfl rfl
+    · rename_i hup
+      have hpc : σ.vol.pc = none := (hi (by simpa using hup)).1
+      have hppc : σ.vol.ppc = none := (hi (by simpa using hup)).2
+      have hne : noExcuse σ.vol.pc := by rw [hpc]; exact noExcuse_none
+      have noCl : ∀ s, ¬ cl σ s := by
+        intro s hc
+        rcases hc with h1 | h1
+        · exact hne.1 s h1
+        · rw [hppc] at h1; simp [cleans] at h1
+      unfold callRestart
+      dsimp only
+      split
+      · apply nd_gen h
+        · rfl
+        · rfl
+        · exact fun _ _ hd => hd
+        · intro s _ hs; simp [AS, setPc, begin] at hs
+        · exact fun s _ hs => Or.inl hs
+        · intro p hp; simp [setPc, begin] at hp
+        · intro s _ _ p hp; simp [setPc, begin] at hp
+        · exact fun ps' hps' => Or.inl hps'
+        · intro s _ _ hc; exact absurd hc (noCl s)
+        · intro s hc; exact absurd hc (hne.2.1 s)
+        · intro s hc; exact absurd hc (hne.2.2 s)
+        · intro _; rfl
+        · intro recd cur hr'
+          simp only [setPc] at hr'
+          rw [recInfo_nextRec] at hr'
+          simp only [Option.some.injEq, Prod.mk.injEq] at hr'
+          obtain ⟨e1, e2⟩ := hr'
+          subst e1; subst e2
+          refine ⟨by simp, ?_⟩
+          intro p hp; simp [setPc, begin] at hp
+        · intro l hl; simp only [setPc] at hl; rw [pendingDrain_nextRec] at hl; simp at hl
+        · intro _; rfl
+      · apply nd_gen h
+        · rfl
+        · rfl
+        · exact fun _ _ hd => hd
+        · intro s _ hs; simp [AS, begin] at hs
+        · exact fun s _ hs => Or.inl hs
+        · intro p hp; simp [begin] at hp
+        · intro s _ _ p hp; simp [begin] at hp
+        · exact fun ps' hps' => Or.inl hps'
+        · intro s _ _ hc; exact absurd hc (noCl s)
+        · intro s hc; exact absurd hc (hne.2.1 s)
+        · intro s hc; exact absurd hc (hne.2.2 s)
+        · intro hr'; simp [begin, isRec] at hr'
+        · intro recd cur hr'; simp [begin, recInfo] at hr'
+        · intro l hl; simp [begin, pendingDrain] at hl
+        · intro _; rfl
+  | start s ident =>
+    simp only [step] at hfresh ⊢
+    split
+    · exact nd_same h rfl rfl rfl rfl rfl
+    · split
+      · exact nd_same h rfl rfl rfl rfl rfl
+      · rename_i hup hbusy
+        have hpc : σ.vol.pc = none := pc_none_of_not_isSome hbusy
+        have hne : noExcuse σ.vol.pc := by rw [hpc]; exact noExcuse_none
+        rw [if_neg hup, if_neg hbusy] at hfresh
+        unfold callStart at hfresh ⊢
+        split
+        · exact nd_same h rfl rfl rfl rfl rfl
+        · rename_i hnew
+          rw [if_neg hnew] at hfresh
+          have hs' : s ∉ σ.registered.map (·.1) := by
+            simp only [setPc, begin, List.map_cons, List.nodup_cons] at hfresh
+            exact hfresh.1
+          obtain ⟨n1, _, _, n4, n5⟩ := nowhere_of_unregistered hr hk hs'
+          apply nd_plain h hne
+          · exact quiet_startSend s
+          · rfl
+          · rfl
+          · rfl
+          · exact fun _ _ hd => hd
+          · intro k _ hk'
+            unfold AS at hk'
+            simp only [setPc, begin, lookup_insert] at hk'
+            split at hk'
+            · rename_i e; subst e
+              exact Or.inr ⟨n1.1, n4, n5⟩
+            · exact Or.inl hk'
+          · exact fun k _ hk' => Or.inl hk'
+          · intro p hp; exact Or.inl ⟨p, hp, rfl, rfl⟩
+          · intro k _ hps p hp q _ h1 _; exact absurd ⟨p, hp, h1⟩ hps
+          · rfl
+  | interim s =>
+    simp only [step]
+    split
+    · exact nd_same h rfl rfl rfl rfl rfl
+    · split
+      · exact nd_same h rfl rfl rfl rfl rfl
+      · rename_i hup hbusy
+        have hpc : σ.vol.pc = none := pc_none_of_not_isSome hbusy
+        have hne : noExcuse σ.vol.pc := by rw [hpc]; exact noExcuse_none
+        unfold callInterim
+        split
+        · exact nd_same h rfl rfl rfl rfl rfl
+        · split
+          · exact nd_same h rfl rfl rfl rfl rfl
+          · exact nd_idle (σ := begin σ .ok) (nd_same h rfl rfl rfl rfl rfl) hne _ (quiet_intSend s)
+  | stop s cause =>
+    simp only [step]
+    split
+    · exact nd_same h rfl rfl rfl rfl rfl
+    · split
+      · exact nd_same h rfl rfl rfl rfl rfl
+      · rename_i hup hbusy
+        have hpc : σ.vol.pc = none := pc_none_of_not_isSome hbusy
+        have hne : noExcuse σ.vol.pc := by rw [hpc]; exact noExcuse_none
+        unfold callStop
+        split
+        · exact nd_same h rfl rfl rfl rfl rfl
+        · rename_i x hx
+          apply nd_sub_plain h hne
+          · exact quiet_stopPersist s
+          · rfl
+          · rfl
+          · rfl
+          · exact fun _ _ hd => hd
+          · intro k hk'
+            unfold AS at hk' ⊢
+            simp only [setPc, begin, lookup_insert] at hk'
+            split at hk'
+            · rename_i e; subst e; rw [hx]; rfl
+            · exact hk'
+          · exact fun k hk' => hk'
+          · intro p hp; exact Or.inl ⟨p, hp, rfl, rfl⟩
+          · exact Or.inl rfl
+  | deq =>
+    simp only [step]
+    split
+    · exact nd_same h rfl rfl rfl rfl rfl
+    · rename_i hal
+      split
+      · exact nd_same h rfl rfl rfl rfl rfl
+      · rename_i hbusy
+        have hnr : ¬ isRec σ.vol.pc := by
+          intro hr'
+          apply hal
+          cases hpc : σ.vol.pc with
+          | none => rw [hpc] at hr'; exact absurd hr' (by simp [isRec])
+          | some f => rw [hpc] at hr'; cases f <;> simp_all [isRec, procAlive]
+        have hppc : σ.vol.ppc = none := by
+          cases e : σ.vol.ppc with
+          | none => rfl
+          | some f => rw [e] at hbusy; simp at hbusy
+        unfold callDeq
+        split
+        · exact nd_same h rfl rfl rfl rfl rfl
+        · apply nd_genP h hnr
+          · rfl
+          · rfl
+          · rfl
+          · rfl
+          · exact fun _ _ hd => hd
+          · exact fun s hs => hs
+          · exact fun p hp => ⟨p, hp, rfl, rfl⟩
+          · rfl
+          · intro s _ _ hc; rw [hppc] at hc; simp [cleans] at hc
+  | retry order =>
+    simp only [step]
+    split
+    · exact nd_same h rfl rfl rfl rfl rfl
+    · rename_i hal
+      split
+      · exact nd_same h rfl rfl rfl rfl rfl
+      · rename_i hbusy
+        have hnr : ¬ isRec σ.vol.pc := by
+          intro hr'
+          apply hal
+          cases hpc : σ.vol.pc with
+          | none => rw [hpc] at hr'; exact absurd hr' (by simp [isRec])
+          | some f => rw [hpc] at hr'; cases f <;> simp_all [isRec, procAlive]
+        have hppc : σ.vol.ppc = none := by
+          cases e : σ.vol.ppc with
+          | none => rfl
+          | some f => rw [e] at hbusy; simp at hbusy
+        unfold callRetry
+        apply nd_genP h hnr
+        · rfl
+        · rfl
+        · rfl
+        · rfl
+        · exact fun _ _ hd => hd
+        · exact fun s hs => hs
+        · exact fun p hp => ⟨p, hp, rfl, rfl⟩
+        · rfl
+        · intro s _ _ hc; rw [hppc] at hc; simp [cleans] at hc
+  | shutdown order =>
+    simp only [step]
+    split
+    · exact nd_same h rfl rfl rfl rfl rfl
+    · split
+      · exact nd_same h rfl rfl rfl rfl rfl
+      · rename_i hup hbusy
+        have hpc : σ.vol.pc = none := pc_none_of_not_isSome hbusy
+        have hne : noExcuse σ.vol.pc := by rw [hpc]; exact noExcuse_none
+        unfold callShutdown
+        apply nd_sub h
+        · rfl
+        · rfl
+        · rfl
+        · exact fun _ _ hd => hd
+        · exact fun k hk' => hk'
+        · exact fun k hk' => hk'
+        · intro p hp; exact Or.inl ⟨p, hp, rfl, rfl⟩
+        · exact Or.inl rfl
+        · intro k _ _ hc; exact absurd hc (hne.1 k)
+        · intro k hc; exact absurd hc (hne.2.1 k)
+        · intro k hc; exact absurd hc (hne.2.2 k)
+        · intro hr'; exact absurd hr' (isRec_nextDrain _)
+        · intro recd cur hr'
+          simp only [setPc, begin] at hr'
+          rw [recInfo_nextDrain] at hr'; simp at hr'
+        · intro l hl
+          simp only [setPc, begin] at hl
+          rw [pendingDrain_nextDrain] at hl
+          simp only [Option.some.injEq] at hl
+          subst hl
+          exact nodup_normalize _ _
+        · intro hr'; exact absurd hr' (isRec_nextDrain _)
+
+
+theorem registered_step_eq (σ : State) (op : Op) :
+    (step σ op).registered = σ.registered ∨ ∃ x, (step σ op).registered = x :: σ.registered := by
+  by_cases hs : ∃ s i, op = .start s i
+  · obtain ⟨s, i, e⟩ := hs
+    subst e
+    simp only [step]
+    split
+    · exact Or.inl rfl
+    · split
+      · exact Or.inl rfl
+      · unfold callStart
+        split
+        · exact Or.inl rfl
+        · exact Or.inr ⟨(s, i), rfl⟩
+  · left
+    by_cases ht : ∃ a, op = .tick a
+    · obtain ⟨a, e⟩ := ht; subst e; exact tick_registered σ a
+    · by_cases hp : ∃ a, op = .ptick a
+      · obtain ⟨a, e⟩ := hp; subst e; exact ptick_registered σ a
+      · cases op with
+        | start s i => exact absurd ⟨s, i, rfl⟩ hs
+        | tick a => exact absurd ⟨a, rfl⟩ ht
+        | ptick a => exact absurd ⟨a, rfl⟩ hp
+        | crash => rfl
+        | crashTorn => exact tornEffect_registered σ
+        | ctr s i o => rfl
+        | restart order =>
+          simp only [step]
+          split
+          · rfl
+          · unfold callRestart; dsimp only; split <;> rfl
+        | interim s =>
+          simp only [step]
+          split
+          · rfl
+          · split
+            · rfl
+            · unfold callInterim
+              split
+              · rfl
+              · split <;> rfl
+        | stop s cause =>
+          simp only [step]
+          split
+          · rfl
+          · split
+            · rfl
+            · unfold callStop
+              split <;> rfl
+        | deq =>
+          simp only [step]
+          split
+          · rfl
+          · split
+            · rfl
+            · unfold callDeq
+              split <;> rfl
+        | retry order =>
+          simp only [step]
+          split
+          · rfl
+          · split <;> rfl
+        | shutdown order =>
+          simp only [step]
+          split
+          · rfl
+          · split <;> rfl
+
+theorem fresh_of_step {σ : State} {op : Op} (h : ((step σ op).registered.map (·.1)).Nodup) :
+    (σ.registered.map (·.1)).Nodup := by
+  rcases registered_step_eq σ op with e | ⟨x, e⟩
+  · rw [e] at h; exact h
+  · rw [e] at h
+    simp only [List.map_cons, List.nodup_cons] at h
+    exact h.2
+
+theorem fresh_of_run {σ : State} {ops : List Op} (h : ((run σ ops).registered.map (·.1)).Nodup) :
+    (σ.registered.map (·.1)).Nodup := by
+  induction ops generalizing σ with
+  | nil => exact h
+  | cons op ops ih => exact fresh_of_step (ih h)
+
+theorem nd_run {σ : State} (h : ND σ) (hr : Reg σ) (hk : AK σ) (hi : IdleDown σ) (ops : List Op)
+    (hfresh : ((run σ ops).registered.map (·.1)).Nodup) : ND (run σ ops) := by
+  induction ops generalizing σ with
+  | nil => exact h
+  | cons op ops ih =>
+    exact ih (nd_step h hr hk hi op (fresh_of_run hfresh)) (reg_step hr op) (ak_step hk op)
+      (idleDown_step hi op) hfresh
+
+/-- `tainted` grows only at a crash, by the sessions registered so far -/
+theorem tainted_step (σ : State) (op : Op) (s : Nat) (h : s ∈ (step σ op).tainted) :
+    s ∈ σ.tainted ∨ ((op = .crash ∨ op = .crashTorn) ∧ s ∈ σ.registered.map (·.1)) := by
+  by_cases hc : op = .crash
+  · subst hc
+    simp only [step, crash, List.mem_append] at h
+    rcases h with h | h
+    · exact Or.inr ⟨Or.inl rfl, h⟩
+    · exact Or.inl h
+  · by_cases hc2 : op = .crashTorn
+    · subst hc2
+      simp only [step, crash, List.mem_append] at h
+      rcases h with h | h
+      · rw [tornEffect_registered] at h; exact Or.inr ⟨Or.inr rfl, h⟩
+      · left
+        rw [tornEffect_eq σ State.tainted (fun _ _ => rfl)] at h; exact h
+    · left
+      by_cases ht : ∃ a, op = .tick a
+      · obtain ⟨a, e⟩ := ht
+        subst e
+        simp only [step] at h
+        unfold tick at h
+        split at h
+        · exact h
+        · unfold tickStartSend send at h; revert h; repeat' (first | exact id | split)
+        · unfold tickStartPersist persistSession at h; revert h; repeat' (first | exact id | split)
+        · unfold tickStopPersist persistSession at h; revert h; repeat' (first | exact id | split)
+        · unfold tickStopSend send at h; revert h; repeat' (first | exact id | split)
+        · exact h
+        · unfold tickStopRemove at h; revert h; repeat' (first | exact id | split)
+        · unfold tickIntSend at h; revert h; repeat' (first | exact id | split)
+        · exact h
+        · exact h
+        · unfold tickDrainSend at h; revert h; repeat' (first | exact id | split)
+        · exact h
+        · unfold tickPersistPending at h; revert h; repeat' (first | exact id | split)
+        · unfold tickRecSend send at h; revert h; repeat' (first | exact id | split)
+        · exact h
+        · unfold tickRecLoad at h
+          split at h
+          · exact h
+          · simp only [setPc] at h
+            rw [(loadPending_spec _ _ _).tainted] at h; exact h
+        · exact h
+      · by_cases hp : ∃ a, op = .ptick a
+        · obtain ⟨a, e⟩ := hp
+          subst e
+          simp only [step] at h
+          rw [ptick_ghost State.tainted (fun _ _ => rfl) (fun _ _ => rfl) (fun _ _ _ => rfl) (fun _ _ => rfl)
+            (fun _ _ => rfl) (fun _ _ _ => rfl) σ a] at h
+          exact h
+        · have e : (step σ op).tainted = σ.tainted := by
+            cases op with
+            | crash => exact absurd rfl hc
+            | crashTorn => exact absurd rfl hc2
+            | tick a => exact absurd ⟨a, rfl⟩ ht
+            | ptick a => exact absurd ⟨a, rfl⟩ hp
+            | ctr s i o => rfl
+            | restart order =>
+              simp only [step]
+              split
+              · rfl
+              · unfold callRestart; dsimp only; split <;> rfl
+            | start s ident =>
+              simp only [step]
+              split
+              · rfl
+              · split
+                · rfl
+                · unfold callStart
+                  split <;> rfl
+            | interim s =>
+              simp only [step]
+              split
+              · rfl
+              · split
+                · rfl
+                · unfold callInterim
+                  split
+                  · rfl
+                  · split <;> rfl
+            | stop s cause =>
+              simp only [step]
+              split
+              · rfl
+              · split
+                · rfl
+                · unfold callStop
+                  split <;> rfl
+            | deq =>
+              simp only [step]
+              split
+              · rfl
+              · split
+                · rfl
+                · unfold callDeq
+                  split <;> rfl
+            | retry order =>
+              simp only [step]
+              split
+              · rfl
+              · split <;> rfl
+            | shutdown order =>
+              simp only [step]
+              split
+              · rfl
+              · split <;> rfl
+          rw [e] at h; exact h
+
+theorem tainted_empty_run (σ : State) (ops : List Op) (hnc : Op.crash ∉ ops) (hnc2 : Op.crashTorn ∉ ops)
+    (h0 : σ.tainted = []) : (run σ ops).tainted = [] := by
+  induction ops generalizing σ with
+  | nil => exact h0
+  | cons op ops ih =>
+    apply ih _ (fun hm => hnc (List.mem_cons_of_mem _ hm)) (fun hm => hnc2 (List.mem_cons_of_mem _ hm))
+    apply List.eq_nil_iff_forall_not_mem.mpr
+    intro x hx
+    rcases tainted_step σ op x hx with h1 | ⟨h1 | h1, _⟩
+    · rw [h0] at h1; simp at h1
+    · exact hnc (by rw [h1]; exact List.mem_cons_self)
+    · exact hnc2 (by rw [h1]; exact List.mem_cons_self)
+
+
+/-! ## what `dup` means, in terms of the server's log -/
+
+/-- `ackedStops` holds the sessions of the acknowledged Stops of the log; `dup` holds every session that has an
+    acknowledged Stop FOLLOWED by another accepted Stop -/
+structure LD (σ : State) : Prop where
+  len : σ.logAck.length = σ.log.length
+  ack : ∀ (i : Nat) (r : Rec), σ.log[i]? = some r → σ.logAck[i]? = some true → r.kind = .stop → r.sid ∈ σ.ackedStops
+  dup : ∀ (i j : Nat) (ri rj : Rec), i < j → σ.log[i]? = some ri → σ.logAck[i]? = some true → σ.log[j]? = some rj →
+    ri.kind = .stop → rj.kind = .stop → ri.sid = rj.sid → ri.sid ∈ σ.dup
+
+theorem getElem?_snoc {α : Type} (l : List α) (x : α) (i : Nat) {y : α} (h : (l ++ [x])[i]? = some y) :
+    (i < l.length ∧ l[i]? = some y) ∨ (i = l.length ∧ y = x) := by
+  by_cases hi : i < l.length
+  · left
+    rw [List.getElem?_append_left hi] at h
+    exact ⟨hi, h⟩
+  · right
+    rw [List.getElem?_append_right (by omega)] at h
+    have : i - l.length = 0 := by
+      by_cases e : i - l.length = 0
+      · exact e
+      · have : ([x] : List α)[i - l.length]? = none := by
+          apply List.getElem?_eq_none; simp; omega
+        rw [this] at h; simp at h
+    rw [this] at h
+    simp at h
+    exact ⟨by omega, h.symm⟩
+
+theorem ld_accept {σ : State} (h : LD σ) (r : Rec) (b : Bool) : LD (accept σ r b) := by
+  have hsubA : ∀ s, s ∈ σ.ackedStops → s ∈ (accept σ r b).ackedStops := by
+    intro s hs; simp only [accept]; split
+    · exact List.mem_cons_of_mem _ hs
+    · exact hs
+  have hsubD : ∀ s, s ∈ σ.dup → s ∈ (accept σ r b).dup := by
+    intro s hs; simp only [accept]; split
+    · exact List.mem_cons_of_mem _ hs
+    · exact hs
+  refine ⟨?_, ?_, ?_⟩
+  · simp [accept, h.len]
+  · intro i r' hl ha hk
+    have hl' : (σ.log ++ [r])[i]? = some r' := hl
+    have ha' : (σ.logAck ++ [b])[i]? = some true := ha
+    rcases getElem?_snoc _ _ _ hl' with ⟨hi, e⟩ | ⟨hi, e⟩
+    · rcases getElem?_snoc _ _ _ ha' with ⟨_, e2⟩ | ⟨hi2, _⟩
+      · exact hsubA _ (h.ack i r' e e2 hk)
+      · rw [h.len] at hi2; omega
+    · rcases getElem?_snoc _ _ _ ha' with ⟨hi2, _⟩ | ⟨_, e2⟩
+      · rw [h.len] at hi2; omega
+      · subst e
+        simp [accept, ← e2, hk]
+  · intro i j ri rj hij hli hai hlj hki hkj hs
+    have hli' : (σ.log ++ [r])[i]? = some ri := hli
+    have hai' : (σ.logAck ++ [b])[i]? = some true := hai
+    have hlj' : (σ.log ++ [r])[j]? = some rj := hlj
+    rcases getElem?_snoc _ _ _ hlj' with ⟨hj, ej⟩ | ⟨hj, ej⟩
+    · -- both inside the old log
+      have hi : i < σ.log.length := by omega
+      rw [List.getElem?_append_left hi] at hli'
+      rw [List.getElem?_append_left (by rw [h.len]; exact hi)] at hai'
+      exact hsubD _ (h.dup i j ri rj hij hli' hai' ej hki hkj hs)
+    · -- the new record is the later one
+      have hi : i < σ.log.length := by omega
+      rw [List.getElem?_append_left hi] at hli'
+      rw [List.getElem?_append_left (by rw [h.len]; exact hi)] at hai'
+      have hin := h.ack i ri hli' hai' hki
+      subst ej
+      rw [hs] at hin ⊢
+      simp [accept, hkj, hin]
+
+theorem ld_init (c : Cfg) : LD (init c) := by
+  refine ⟨rfl, ?_, ?_⟩
+  · intro i r hl; simp [init] at hl
+  · intro i j ri rj _ hl; simp [init] at hl
+
+theorem ld_step {σ : State} (h : LD σ) (op : Op) : LD (step σ op) := by
+  apply four_step LD _ (fun σ r b h => ld_accept h r b) h op
+  intro σ σ' e h
+  unfold Four at e
+  simp only [Prod.mk.injEq] at e
+  obtain ⟨e1, e2, e3, e4⟩ := e
+  exact ⟨by rw [e1, e2]; exact h.len, by rw [e1, e2, e3]; exact h.ack, by rw [e1, e2, e4]; exact h.dup⟩
+
+theorem ld_run (c : Cfg) (ops : List Op) : LD (run (init c) ops) := by
+  suffices H : ∀ σ, LD σ → LD (run σ ops) from H _ (ld_init c)
+  induction ops with
+  | nil => exact fun σ h => h
+  | cons op ops ih => exact fun σ h => ih _ (ld_step h op)
 
 end Bng.Acct
